@@ -290,6 +290,12 @@ theorem C13_fix_isolated_partial (fuel : Nat) (H : NsHeap) (hr : RefsOK H) (n m 
 example : (fixNs 5 { fixLeakHeapBase with ns := fun a => a } 0 none none).nsmapOf 2 = [("a", "u2")] ∧
     (fixNs 5 { fixLeakHeapBase with ns := fun a => a } 0 none none).nsmapOf 3 = [] := by decide
 
+/-- a subtree all of whose nodes hold one and the same dict object (what `add_child` with equal maps and `set_nsmap` leave
+    behind) is a fixed point of the helper: nothing is allocated, re-pointed or written, for every heap and every budget -/
+theorem C13_fix_all_shared (fuel : Nat) (H : NsHeap) (n : Nat) (h : ∀ x, Reach H.kids n x → H.ns x = H.ns n) :
+    fixNs fuel H n none none = H :=
+  fixNs_all_shared (H.ns n) fuel H n none none h (Or.inl rfl)
+
 /-- the recursion budget exhausted, or a node without children: `fix_nsmap` at the entry call does nothing at all
     (the node's own map is only ever rewritten from its parent's) -/
 theorem C13_fix_leaf (fuel : Nat) (H : NsHeap) (n : Nat) (hk : H.kids n = []) : fixNs fuel H n none none = H := by
